@@ -154,6 +154,13 @@ func (p *Pool) Put(x any) {
 		p.items = append(p.items, x)
 	}
 	poolMu.Unlock()
+	if controlled && !aborted() {
+		// A second scheduling point AFTER the hand-over: what the caller still does with the
+		// object (or with memory it owns) after Put is not ordered before another thread's Get,
+		// and those plain accesses are no scheduling points themselves. Without this point the
+		// block "Put; keep using the object" would be atomic and use-after-release invisible.
+		point(fmt.Sprintf("poolput-done %s", p.name), nil)
+	}
 }
 
 // ResetPools empties every pool and zeroes the counters.
